@@ -207,6 +207,8 @@ def checkKinds (r : RResult) (si : Nat) (s : RSect) : List Issue :=
     (if insnStraddles s b then [⟨"block-boundary-inside-an-instruction", si, b.off⟩] else []) ++
     (if b.isData && hasInsn s b then [⟨"instructions-in-a-data-block", si, b.off⟩] else []) ++
     (if b.isData && reached then [⟨"edge-into-a-data-block", si, b.off⟩] else []) ++
+    -- unless the caller says the text is trivially unreachable, control enters an executable section at its first block
+    (if b.isData && s.exec && bi == 0 && !r.trivUnreach then [⟨"entry-block-of-an-executable-section-became-data", si, b.off⟩] else []) ++
     (if !b.isData && b.size != 0 && !hasInsn s b && !reached && !hasCfi s b && (!s.exec || bi != 0 || r.trivUnreach) then
        [⟨"data-only-block-nothing-jumps-to-stayed-code", si, b.off⟩] else []))
 
